@@ -116,7 +116,7 @@ def main():
         v.notes.append(f"observation: {obs} disturbed uploads WITHOUT CRC returned data that differs from the value "
                        f"(outside the property's CRC-scoped clause; recorded, not alarmed)")
     cov = {"states": mc.distinct, "transitions": mc.generated,
-           "traces_validated_against_impl": val.traces, "samples": [traces[1]["ev"][:8]],
+           "traces_validated_against_impl": val.traces, "samples": [traces[min(1, len(traces) - 1)]["ev"][:8]],
            "trace_events": val.events, "outcomes": outcome, "rejected": len(val.rejects),
            "no_crc_disturbed_wrong_data_observed": obs}
     return v.finish("model_checking", cov, [
